@@ -725,6 +725,7 @@ pub fn run(cfg: &RunCfg) -> i32 {
   let o = drive(cfg, "documents", total, &known, strategy, interpret, check);
   report.absorb("documents", o);
   cli::cleanup_work_root();
+  crate::fuzz::stage(cfg, &mut report, &known, 40000);
   report.finish()
 }
 
@@ -940,12 +941,24 @@ pub fn may_contain_round_trip_cycle(yaml: &str) -> bool {
   cyclic(&globals)
 }
 
-/// the body run inside the fuzz target: panics propagate (libFuzzer reports them as crashes)
-pub fn fuzz_one(data: &[u8]) {
-  let case = decode_bytes(data);
-  if may_contain_round_trip_cycle(&case.yaml) {
-    return;
-  }
-  let mut st = Stats::new();
-  let _ = body(&case, &mut st);
+/// the stage driven by bytes (coverage-guided tier). Inside the fuzz target the document is
+/// loaded and scanned in-process (a panic or stack overflow ends the fuzz process and leaves an
+/// artifact) and the listed round-trip cycle is excluded by construction; the parent decides an
+/// artifact with the isolated check.
+pub fn erased(in_target: bool) -> crate::fuzz::Erased {
+  crate::fuzz::Erased::custom("C11", "documents", decode_bytes, move |case: &Case, st: &mut Stats| {
+    if in_target {
+      if may_contain_round_trip_cycle(&case.yaml) {
+        st.label("excluded_in_fuzz_target(listed round-trip cycle)");
+        return Ok(());
+      }
+      body(case, st)
+    } else {
+      check(case, st)
+    }
+  })
+}
+
+pub fn seed_documents() -> Vec<String> {
+  seeds()
 }
